@@ -158,7 +158,7 @@ def record(rep, m, st, info):
 
 def run(ctx, rep):
     rng = ctx.rng()
-    mods = [gen_module(rng, i) for i in range(ctx.n(700, 30000))]
+    mods = [gen_module(rng, i) for i in range(ctx.n(700, 6000))]
     for m, st, info in common.pmap(lambda m: run_one(ctx, m), mods):
         record(rep, m, st, info)
     rep.min_evaluations = 150
